@@ -936,8 +936,22 @@ class Body:
                 if base[0] == "agg" and base[1] in ("tuple",) and e["f"] < len(base[2]):
                     base = base[2][e["f"]]
                     continue
+                if base[0] == "agg" and "::" in str(base[1]) and base[3] and e.get("n") in base[3]:
+                    # field of a struct / variant built right here
+                    base = base[2][base[3].index(e["n"])]
+                    continue
                 base = ("field", base, e["n"] if e["n"] is not None else str(e["f"]))
             elif isinstance(e, dict) and "d" in e:
+                # `(x as V)` where x is built in several places (an enum returned by a helper with one aggregate per variant): only the
+                # aggregate of variant V can be what is looked at here
+                if base[0] == "local" and depth < 30:
+                    aggs = [d for d in self.defs().get(base[1], []) if d[0] == "stmt" and d[3]["k"] == "assign" and not d[3]["pl"]["p"]
+                            and d[3]["rv"]["k"] == "agg" and d[3]["rv"].get("ak") == "adt"]
+                    mine = [d for d in aggs if d[3]["rv"].get("variant") == e["d"]]
+                    others = [d for d in self.defs().get(base[1], []) if d not in aggs]
+                    if len(mine) == 1 and not others:
+                        base = self.rvalue_value(mine[0][3]["rv"], depth + 1, seen | {base[1]})
+                        continue
                 base = ("downcast", base, e["d"])
             elif isinstance(e, dict) and ("idx" in e or "cidx" in e):
                 base = ("index", base)
